@@ -434,3 +434,17 @@ BENIGN += [
     dict(id="B32", props=["C07", "C01", "C13", "C14"], what="index assignment action calls the constructor helper", edits=[
         (G, "        AST::AssignArray{array: Box::new(array), index: Box::new(index), value: Box::new(v)},", "        AST::assign_array(array, index, v),")]),
 ]
+
+# ---------------------------------------------------------------- round 6 (second half): readers, loader, placement
+BENIGN += [
+    dict(id="B33", props=["C03", "C04", "C06", "C08"], what="NamedSource built through a private constructor that only boxes the reader", edits=[
+        (M, "    fn console() -> Result<NamedSource> {\n        let named_source = NamedSource {\n            name: Stream::Console,\n            source: Box::new(BufReader::new(std::io::stdin())),\n        };\n        Ok(named_source)\n    }",
+            "    fn wrap<R>(name: Stream, reader: R) -> NamedSource where R: BufRead + 'static {\n        let source = Box::new(reader);\n        NamedSource { name, source }\n    }\n    fn console() -> Result<NamedSource> {\n        Ok(NamedSource::wrap(Stream::Console, BufReader::new(std::io::stdin())))\n    }"),
+        (M, "            File::open(path).map(|file| NamedSource {\n                name: Stream::File(name.to_owned()),\n                source: Box::new(BufReader::new(file)),\n            }).map_err(",
+            "            File::open(path).map(|file| NamedSource::wrap(Stream::File(name.to_owned()), BufReader::new(file))).map_err(")]),
+]
+MUTANTS += [
+    dict(id="M3g", props=["C03", "C04", "C17"], what="the private reader constructor skips a leading NUL byte", edits=[
+        (M, "    fn console() -> Result<NamedSource> {\n        let named_source = NamedSource {\n            name: Stream::Console,\n            source: Box::new(BufReader::new(std::io::stdin())),\n        };\n        Ok(named_source)\n    }",
+            "    fn wrap<R>(name: Stream, reader: R) -> NamedSource where R: BufRead + 'static {\n        let mut source = Box::new(reader);\n        if source.fill_buf().map(|b| b.first() == Some(&0u8) && b.len() == 1).unwrap_or(false) { source.consume(1); }\n        NamedSource { name, source }\n    }\n    fn console() -> Result<NamedSource> {\n        Ok(NamedSource::wrap(Stream::Console, BufReader::new(std::io::stdin())))\n    }")]),
+]
